@@ -261,6 +261,20 @@ def fifo(ctx, rule, field, allowed, floor=3):
             n += 1
             callee = t["callee"].get("path") if t else None
             ok = callee is not None and last_seg(callee) in allowed
+            if not ok and t is not None:
+                # handed to a helper that is not in the frozen list: what the helper does with it counts
+                from .util import local_callee, is_new_fn
+                from .fields import param_consumers
+                lc = local_callee(t)
+                if lc in facts.fns and is_new_fn(lc):
+                    g = facts.fns[lc]
+                    idx = [i for i, a in enumerate(t["args"]) if a["k"] in ("copy", "move") and not a["place"]["proj"]]
+                    inner = []
+                    for i in idx:
+                        ty = g.locals[i + 1]["ty"] if i + 1 < len(g.locals) else {}
+                        if ty.get("k") == "ref" and ty.get("mut"):
+                            inner += param_consumers(g, i + 1)
+                    ok = bool(inner) and all(last_seg(x["callee"].get("path") or "") in allowed for x in inner)
             ctx.ob(rule, "%s|%s|%s" % (field, fn.name.split("::")[-1], last_seg(callee) if callee else "escapes"), ok, "&mut self.%s is handed to %s in %s (allowed: %s)" % (field, callee, fn.name, sorted(allowed)), fn.loc(site[0], site[1]))
     for w in field_writers(facts, conn.HC, field):
         if w[3] in ("assign", "assign-inside", "call-result"):
